@@ -275,7 +275,18 @@ func (i *IPC) ProxyAnswers(arg messages.Arg, response *[]byte) error {
 	*response = b
 
 	if success {
-		snowflake.answerChannel <- answer
+		select {
+		case snowflake.answerChannel <- answer:
+		case <-time.After(time.Second * ClientTimeout):
+			// Nobody is waiting for this answer any more (the client timed
+			// out, or already got an answer): report it instead of blocking
+			// this request forever.
+			b, err = messages.EncodeAnswerResponse(false)
+			if err != nil {
+				return messages.ErrInternal
+			}
+			*response = b
+		}
 	}
 
 	return nil
